@@ -255,6 +255,12 @@ class Ctx:
             return self.error(rule, instance, f"reference value contains unknowns: {sb[:300]}", site)
         if unk_c:
             return self.error(rule, instance, f"code value left the recognised language (unknown sub-term): {sa[:400]}", site)
+        priv = sorted({x.args[1] for x in ct.walk() if isinstance(x, Term) and x.op == "method" and len(x.args) == 2 and isinstance(x.args[1], str) and x.args[1].startswith("_") and not x.args[1].startswith("__") and not any(c_.find_method(x.args[1]) is not None for m_ in self.P.modules.values() for c_ in m_.classes.values())}) if isinstance(ct, Term) else []
+        if priv:
+            # the code reads private state that no method defines and the hand-made pre-state of this obligation does
+            # not contain (an attribute introduced by the change, filled elsewhere): the obligation is anchored on an
+            # interface of private state that has changed - undecided, like any vanished anchor
+            return self.error(rule, instance, f"undecided: the code reads private attribute(s) {priv} that the pre-state of this obligation does not define (the private state it is anchored on has changed)", site)
         new_ops = foreign_vocabulary(ct, rt)
         # an index-list operation that the normal form has rewritten completely (x[flatnonzero(m)] = x[m],
         # len(flatnonzero(m)) = count(m)) is not what the two sides differ in
